@@ -83,18 +83,22 @@ static void check_string(const char* str, unsigned coin, const char* cls, pv_rng
         pv_w->fail_countdown = 1; a = NULL; lo = SENTINEL;
         int sa = pv_api_decode(str, coin, pv_randn(rng, 2) ? &lo : NULL, &a);
         bool consumed = pv_w->fail_countdown == 0; pv_w->fail_countdown = 0;
+        bool refused = pv_w->alloc_failed_in_call > 0;
         PV_COUNT("evaluations", 1);
-        int want = (st == POLYSEED_OK || st == POLYSEED_ERR_UNSUPPORTED) ? POLYSEED_ERR_MEMORY : st;
+        /* word-count, language and checksum errors come before the memory error whatever the allocator does; where the fault-free answer
+         * is OK or UNSUPPORTED the memory status is due exactly when a request was really refused (the statement does not order
+         * "memory" against "unsupported": a library that looks at the features before it allocates never asks the allocator) */
+        int want = (st == POLYSEED_OK || st == POLYSEED_ERR_UNSUPPORTED) ? (refused ? POLYSEED_ERR_MEMORY : st) : st;
         if (sa != want) pv_violation("C09/precedence/auto", "[%s] allocator failing: auto %s, expected %s (unarmed result %s); '%s'", cls, pv_status_name(sa), pv_status_name(want), pv_status_name(st), pv_esc(str));
-        else { pv_countf(1, "armed.auto.%s", pv_status_name(sa)); if (st == POLYSEED_ERR_UNSUPPORTED) PV_COUNT("armed.memory_before_unsupported", 1); if (st == POLYSEED_ERR_CHECKSUM) PV_COUNT("armed.checksum_before_memory", 1); if (!consumed) PV_COUNT("armed.failure_not_reached", 1); }
+        else { pv_countf(1, "armed.auto.%s", pv_status_name(sa)); if (st == POLYSEED_ERR_UNSUPPORTED && refused) PV_COUNT("armed.memory_before_unsupported", 1); if (st == POLYSEED_ERR_CHECKSUM) PV_COUNT("armed.checksum_before_memory", 1); if (!consumed) PV_COUNT("armed.failure_not_reached", 1); }
         if (sa == POLYSEED_OK) pv_api_free(a);
         int l = which >= 0 ? which : (int)pv_randn(rng, (uint32_t)pv_nlangs);
         if (pv_langs[l].lib) {
             pv_w->fail_countdown = 1; a = NULL;
             int se = pv_api_decode_explicit(str, coin, pv_langs[l].lib, &a);
-            pv_w->fail_countdown = 0;
+            pv_w->fail_countdown = 0; bool refused2 = pv_w->alloc_failed_in_call > 0;
             PV_COUNT("evaluations", 1);
-            int we = (est[l] == POLYSEED_OK || est[l] == POLYSEED_ERR_UNSUPPORTED) ? POLYSEED_ERR_MEMORY : est[l];
+            int we = (est[l] == POLYSEED_OK || est[l] == POLYSEED_ERR_UNSUPPORTED) ? (refused2 ? POLYSEED_ERR_MEMORY : est[l]) : est[l];
             if (se != we) pv_violation("C09/precedence/explicit", "[%s] allocator failing: explicit(%s) %s, expected %s; '%s'", cls, pv_langs[l].name_en, pv_status_name(se), pv_status_name(we), pv_esc(str));
             else pv_countf(1, "armed.explicit.%s", pv_status_name(se));
             if (se == POLYSEED_OK) pv_api_free(a);
